@@ -326,7 +326,7 @@ def mutate(rng, t, lit):
                 body.append(body[0] if body else "True"); kind = "array-too-long"
         elif choice == "repeat":
             e = body[0] if tag in ("ArrayRepeat",) else (body[0] if tag == "Array" and body else "True")
-            setter({"ArrayRepeat": [e, st["n"] + rng.choice([1, 2, 2 ** 20])]}); kind = "repeat-wrong-size"
+            setter({"ArrayRepeat": [e, st["n"] + rng.choice([1, 2, 64])]}); kind = "repeat-wrong-size"
         elif choice == "range":
             e = st["elem"]
             tname = SERDE[e["t"]] if e["k"] == "int" else "U8"
